@@ -135,7 +135,7 @@ func clauseName(kind, tier, via string) string {
 }
 
 func ttlAlphabet(cfg Cfg) []wire.Op {
-	ttls := []uint32{0, 1, 100, 30*24*3600 - 1, 30 * 24 * 3600, 30*24*3600 + 1, bubbleEpoch + 100, bubbleEpoch - 10}
+	ttls := []uint32{0, 1, 100, 30*24*3600 - 1, 30 * 24 * 3600, 30*24*3600 + 1, bubbleEpoch + 100, bubbleEpoch - 10, bubbleEpoch + 60*24*3600 /* absolute, more than 30 days ahead */}
 	var out []wire.Op
 	for _, port := range cfg.Ports() {
 		p := func(o wire.Op) { o.Port = port; out = append(out, o) }
